@@ -141,12 +141,13 @@ NORM_SPLITS = [  # name, V_COMPS, VM, VL, VT
     ("authority", 2 | 4 | 64, 1, 3, 4),
     ("path", 1 | 8, 2, 3, 4),
     ("all-short", 127, 1, 1, 3),
+    ("dots", 8, 3, 2, 3),       # path only, three segments of up to two characters over a three-character text ('../../..', 'a/../..', ...)
 ]
-NORM_KF = ["C08-host-percent-encoding-lowercased", "C08-network-path-reference-treated-as-relative", "C09-relative-path-collapses",
+NORM_KF = ["C08-host-percent-encoding-lowercased", "C08-network-path-reference-treated-as-relative", "C09-relative-path-collapses", "C07-normalize-relative-path-reparse",
            "C14-normalize-borrowed-path-leak"]
 for ch in ("A", "W"):
     for (nm, comps, vm, vl, vt) in NORM_SPLITS:
-        ob(id="NormalizeMaskRequired.%s.%s.H" % (nm, ch), props=["C08", "C12", "C19", "C20"], route="H", harness="c08_normalize.c", char=ch,
+        if nm != "dots": ob(id="NormalizeMaskRequired.%s.%s.H" % (nm, ch), props=["C08", "C12", "C19", "C20"], route="H", harness="c08_normalize.c", char=ch,
            group="uriNormalizeSyntaxMaskRequiredEx: reported mask is sufficient (bit clear => component already normal), read-only",
            defines={"VM": vm, "VL": vl, "VT": vt, "V_OWNED": 0, "VSTUB_MEMCPY": 3, "V_PART": 1, "V_COMPS": comps, "VU_SLACK": 2},
            unwindset=norm_uw(ch, vm, vl), level="B",
@@ -155,6 +156,8 @@ for ch in ("A", "W"):
            inlined=["uriContainsUppercaseLetters" + ch, "uriContainsUglyPercentEncoding" + ch, "uriHexdigToInt" + ch, "uriIsUnreserved"],
            stubs=["memcpy (one whole Uri structure, structure assignment)"], kf=NORM_KF, timeout_s=by_tier(900, 3600), mem_gb=8)
         for owned in ((0, 1) if ch == "A" else ()):     # W instances exceed the memory budget at these bounds (DESIGN "W pass")
+            if owned and nm == "dots":
+                continue
             if owned and nm == "path":
                 vl = 2      # the owned/path instance does not fit into memory with 3-character segments (percent-encodings in
                             # segments are covered by the borrowed/path instance: the in-place and the copying repair share one engine)
@@ -190,6 +193,50 @@ for ch in ("A", "W"):
        stubs=["memory manager (ledger stub)"],
        kf=["C10-authority-compared-by-host-only", "C10-empty-reference-keeps-base-query", "C10-hostless-rootedness-differs", "C10-domainroot-makes-rootless-source-absolute", "C10-empty-source-path"],
        timeout_s=by_tier(1500, 7200), mem_gb=by_tier(10, 24))
+
+# ----------------------------------------------------------------------------------------------------------------
+# C20 / C12  ghost observers: read-only inputs never change, not even transiently (DESIGN 10.9)
+ALL_SRC = ["UriCommon.c", "UriCompare.c", "UriEscape.c", "UriFile.c", "UriIp4.c", "UriIp4Base.c", "UriMemory.c", "UriNormalize.c",
+           "UriNormalizeBase.c", "UriParse.c", "UriParseBase.c", "UriQuery.c", "UriRecompose.c", "UriResolve.c", "UriShorten.c"]
+WATCH_GROUP = "ghost observer after every expression statement of the library: the shared read-only inputs keep their entry values at every statement boundary"
+for ch in ("A", "W"):
+    def _uw(d):
+        d = dict(d)
+        d.setdefault("memcpy.*", 17)
+        d.setdefault("memcmp.*", 17)
+        return d
+    ob(id="Watch.AddBaseUri.%s.H" % ch, props=["C20", "C12"], route="H", harness="c20_watch.c", entry="h_w_addbase", char=ch, watch=ALL_SRC,
+       group=WATCH_GROUP, defines=by_tier({"VM": 2, "VL": 1, "VT": 3, "V_WATCH": 1}, {"VM": 3, "VL": 1, "VT": 3, "V_WATCH": 1}),
+       unwindset=by_tier(_uw(resolve_uw(ch, 2, 1)), _uw(resolve_uw(ch, 3, 1))), level="B",
+       bounds=by_tier("reference and base: <=2 segments each, <=1 character per component; every allocation request may fail; one statement boundary = one observation",
+                      "reference and base: <=3 segments each, <=1 character per component"),
+       functions=[f % ch for f in RESOLVE_FUNCS], inlined=[f % ch for f in RESOLVE_FUNCS[1:]], stubs=["memory manager (ledger stub)"],
+       timeout_s=by_tier(900, 3600), mem_gb=by_tier(10, 24))
+    ob(id="Watch.RemoveBaseUri.%s.H" % ch, props=["C20", "C12"], route="H", harness="c20_watch.c", entry="h_w_removebase", char=ch, watch=ALL_SRC,
+       group=WATCH_GROUP, defines=by_tier({"VM": 2, "VL": 1, "VT": 3, "V_WATCH": 1}, {"VM": 3, "VL": 1, "VT": 3, "V_WATCH": 1}),
+       unwindset=by_tier(_uw(shorten_uw(ch, 2, 1)), _uw(shorten_uw(ch, 3, 1))), level="B",
+       bounds=by_tier("source and base: <=2 segments each, <=1 character per component; every allocation request may fail",
+                      "source and base: <=3 segments each, <=1 character per component"),
+       functions=[f % ch for f in SHORTEN_FUNCS], inlined=[f % ch for f in SHORTEN_FUNCS[1:]], stubs=["memory manager (ledger stub)"],
+       timeout_s=by_tier(900, 3600), mem_gb=by_tier(10, 24))
+    ob(id="Watch.Readers.%s.H" % ch, props=["C20", "C12"], route="H", harness="c20_watch.c", entry="h_w_readers", char=ch, watch=ALL_SRC,
+       group=WATCH_GROUP, defines=by_tier({"VM": 2, "VL": 1, "VT": 3, "V_WATCH": 1, "VSTUB_MEMCPY": 1, "VU_SLACK": 2}, {"VM": 2, "VL": 2, "VT": 4, "V_WATCH": 1, "VSTUB_MEMCPY": 1, "VU_SLACK": 2}),
+       unwindset=_uw({"uriToStringEngine%s.*" % ch: 17, "uriEqualsUri%s.*" % ch: 4, "strncmp.*": 3, "wcsncmp.*": 3,
+                      }),
+       level="B", bounds=by_tier("two URIs of <=2 segments, <=1 character per component, every capacity 0..64", "two URIs of <=2 segments, <=2 characters per component"),
+       functions=["uriEqualsUri" + ch, "uriToStringCharsRequired" + ch, "uriToString" + ch],
+       inlined=["uriToStringEngine" + ch, "uriCompareRange" + ch], stubs=["memcpy (element loop)"],
+       timeout_s=by_tier(900, 3600), mem_gb=by_tier(10, 24))
+    ob(id="Watch.NormalizeMaskRequired.%s.H" % ch, props=["C20", "C12"], route="H", harness="c20_watch.c", entry="h_w_normmask", char=ch, watch=ALL_SRC,
+       group=WATCH_GROUP, defines={"VM": 2, "VL": 2, "VT": 4, "V_WATCH": 1, "VSTUB_MEMCPY": 3, "VU_SLACK": 2},
+       unwindset=norm_uw(ch, 2, 2), level="B", bounds="one URI of <=2 segments, <=2 characters per component",
+       functions=["uriNormalizeSyntaxMaskRequiredEx" + ch], inlined=["uriNormalizeSyntaxEngine" + ch], stubs=["memcpy (one whole Uri structure, structure assignment)"],
+       timeout_s=by_tier(900, 3600), mem_gb=10)
+    ob(id="Watch.ComposeQuery.%s.H" % ch, props=["C20", "C12"], route="H", harness="c20_watch.c", entry="h_w_compose", char=ch, watch=ALL_SRC,
+       group=WATCH_GROUP, defines={"VM": 1, "VL": 1, "VT": 2, "VI": 2, "VS": 1, "V_WATCH": 1, "VSTUB_MEMCPY": 1},
+       unwindset=_uw({"uriComposeQueryEngine%s.*" % ch: 3, "uriEscapeEx%s.*" % ch: 3, "strlen.*": 3, "wcslen.*": 3}),
+       level="B", bounds="2 items, keys/values of at most 1 character", functions=["uriComposeQueryCharsRequiredEx" + ch, "uriComposeQueryEx" + ch],
+       inlined=["uriComposeQueryEngine" + ch, "uriEscapeEx" + ch], stubs=[], timeout_s=by_tier(900, 3600), mem_gb=10)
 
 # ----------------------------------------------------------------------------------------------------------------
 # C16  percent-escaping: unbounded safety/shape obligations by loop contracts (route N)
@@ -329,6 +376,16 @@ for ch in ("A", "W"):
        inlined=["uriEscapeEx" + ch], stubs=[],
        timeout_s=by_tier(1500, 7200), mem_gb=by_tier(12, 24))
 
+    ob(id="ComposeQueryMalloc.%s.H" % ch, props=["C17", "C19", "C13", "C14"], route="H", harness="c17_query.c", entry="h_composemalloc", char=ch,
+       group="uriComposeQueryMallocExMm: block sized in characters, holds the text of uriComposeQueryEx, one block outstanding, refusal => URI_ERROR_MALLOC",
+       defines=by_tier({"VI": 1, "VS": 1, "VSTUB_MEMCPY": 1}, {"VI": 2, "VS": 1, "VSTUB_MEMCPY": 1}),
+       unwindset=by_tier({"uriComposeQueryEngine%s.*" % ch: 2, "uriEscapeEx%s.*" % ch: 3, "memcpy.*": 8, "strlen.*": 3, "wcslen.*": 3},
+                         {"uriComposeQueryEngine%s.*" % ch: 3, "uriEscapeEx%s.*" % ch: 3, "memcpy.*": 8, "strlen.*": 3, "wcslen.*": 3}),
+       level="B", bounds=by_tier("1 item, key/value of at most 1 character (code points 1..255); the one allocation request may fail",
+                                 "2 items, keys/values of at most 1 character; the one allocation request may fail"),
+       functions=["uriComposeQueryMallocExMm" + ch], inlined=["uriComposeQueryEx" + ch, "uriComposeQueryCharsRequiredEx" + ch, "uriComposeQueryEngine" + ch, "uriEscapeEx" + ch],
+       stubs=["memory manager (one-block canary arena in the harness)"], timeout_s=by_tier(900, 3600), mem_gb=by_tier(10, 20))
+
 # ----------------------------------------------------------------------------------------------------------------
 # C18  filename <-> URI string
 NOPTROVF = ["--bounds-check", "--pointer-check", "--signed-overflow-check", "--div-by-zero-check", "--undefined-shift-check",
@@ -424,21 +481,21 @@ QUICK = {
     "C04": [r"^ToString\.content\..*\.A"],
     "C05": [r"^ToString\.cap\."],
     "C06": [r"^AddBaseUri\.A"],
-    "C07": [r"^RemoveBaseUri\.A", r"^MakeOwner\.A", r"^NormalizeSyntax\.borrowed\.(scheme-query-fragment|all-short)\.A", r"^PushPathSegment\.A"],
+    "C07": [r"^RemoveBaseUri\.A", r"^MakeOwner\.A", r"^NormalizeSyntax\.borrowed\.(scheme-query-fragment|all-short|path)\.A", r"^PushPathSegment\.A"],
     "C08": [r"^NormalizeSyntax\..*\.A", r"^NormalizeMaskRequired\..*\.A"],
-    "C09": [r"^NormalizeSyntax\.(borrowed|owned)\.(path|all-short)\.A"],
+    "C09": [r"^NormalizeSyntax\.(borrowed|owned)\.(path|all-short)\.A", r"^NormalizeSyntax\.borrowed\.dots\.A"],
     "C10": [r"^RemoveBaseUri\."],
     "C11": [r"."],
-    "C12": [r"^MakeOwner\.", r"^NormalizeSyntax\.borrowed\.authority\.A", r"^EqualsUri\.A", r"^ToString\.cap\.regname\.A", r"^NormalizeMaskRequired\.authority\.A"],
-    "C13": [r"^static\.", r"^FreeUriMembersMm\.A", r"^MakeOwner\.A", r"^DissectQuery\.A", r"^uriMemoryManagerIsComplete", r"^AppendQueryItem\.A"],
+    "C12": [r"^Watch\.(AddBaseUri|Readers|NormalizeMaskRequired|ComposeQuery)\.A", r"^MakeOwner\.", r"^NormalizeSyntax\.borrowed\.authority\.A", r"^EqualsUri\.A", r"^ToString\.cap\.regname\.A", r"^NormalizeMaskRequired\.authority\.A"],
+    "C13": [r"^static\.", r"^FreeUriMembersMm\.A", r"^MakeOwner\.A", r"^DissectQuery\.A", r"^uriMemoryManagerIsComplete", r"^AppendQueryItem\.A", r"^ComposeQueryMalloc\.A"],
     "C14": [r"^AddBaseUri\.A", r"^MakeOwner\.A", r"^DissectQuery\.A", r"^AppendQueryItem\.A", r"^StopSyntaxMalloc\.A", r"^PushPathSegment\.A", r"^RemoveBaseUri\.A", r"^NormalizeSyntax\.borrowed\.path\.A"],
     "C15": [r"."],
     "C16": [r"^EscapeEx\.A\.N", r"^UnescapeInPlaceEx\.A\.N", r"^EscapeEx\.corner", r"Content\.", r"^EscapeRoundTrip\."],
-    "C17": [r"^DissectQuery\.", r"^AppendQueryItem\.A", r"^ComposeQuery\."],
+    "C17": [r"^DissectQuery\.", r"^AppendQueryItem\.A", r"^ComposeQuery\.", r"^ComposeQueryMalloc\."],
     "C18": [r"^FilenameToUri", r"^FilenameShortForms\."],
-    "C19": [r"^EqualsUri\.W", r"^CompareRange\.W", r"^ToString\.cap\..*\.W", r"^MakeOwner\.W", r"^RemoveBaseUri\.W", r"^DissectQuery\.W", r"Content\.W", r"^EscapeRoundTrip\.W",
+    "C19": [r"^ComposeQueryMalloc\.W", r"^EqualsUri\.W", r"^CompareRange\.W", r"^ToString\.cap\..*\.W", r"^MakeOwner\.W", r"^RemoveBaseUri\.W", r"^DissectQuery\.W", r"Content\.W", r"^EscapeRoundTrip\.W",
             r"^OnExitHost\.W", r"^NormalizeMaskRequired\..*\.W", r"^Dispatch\.Parse(PctEncoded|UriReference|OwnHost2|IpFuture)\.W", r"^FilenameShortForms\.W"],
-    "C20": [r"^static\.", r"^EqualsUri\.A", r"^ToString\.cap\.regname\.A", r"^RemoveBaseUri\.A", r"^MakeOwner\.A"],
+    "C20": [r"^static\.", r"^Watch\..*\.A", r"^Watch\.(AddBaseUri|ComposeQuery)\.W", r"^EqualsUri\.A", r"^ToString\.cap\.regname\.A", r"^MakeOwner\.A"],
 }
 
 
